@@ -13,79 +13,79 @@ PY = "/venv/bin/python"
 CHECKS = {
     "C01": (
         "regex language inclusion (tokenizer vs tag handler) + typestate/flow walk over parser handlers",
-        "Decides eleven necessary conditions of parse() totality and tree well-formedness for all inputs: every tokenizer tag token is accepted by tag_fn's regexes (language inclusion), no token alternative is nullable, heading tables agree, numeric conversions on the parse path are soundly guarded, children and attribute text are finalised before they are moved into argument fields, raw stack pops are paired with removal from the parent, parser state is reset per parse, row/cell/caption/list-item pushes happen only with the required parent on top (set-valued typestate), no loop around _parser_pop can pop ROOT, entries of the parameter defaultdict stay lists, constant indexes into a node's largs/children are guarded. Does not decide totality in general.",
+        "Decides eleven necessary conditions of parse() totality and tree well-formedness for all inputs: every tokenizer tag token is accepted by tag_fn's regexes (language inclusion), no token alternative is nullable, heading tables agree, numeric conversions on the parse path are soundly guarded, children and attribute text are finalised before they are moved into argument fields, raw stack pops are paired with removal from the parent, parser state is reset per parse, row/cell/caption/list-item pushes happen only with the required parent on top (set-valued typestate), no loop around _parser_pop can pop ROOT, entries of the parameter defaultdict stay lists, constant indexes into a node's largs/children are guarded, cookie finalisation iterates to a fixed point and the parser never resets the cookie table. Does not decide totality in general.",
         "Trusts Python's re semantics as modelled by the regex toolkit; handlers reached only through tokenops/process_text dispatch.",
         "DESIGN.md §3 C01",
     ),
     "C02": (
         "decision-skeleton evaluation over NodeKind x level",
-        "Evaluates the extracted stop predicates of subtitle_start_fn (loop condition included) and hline_fn over all 27 node kinds x 6 levels against the nesting rule of the statement, plus same-line/same-kind matching of heading ends, marker provenance in list_fn, closing of all open lists by non-list content at the beginning of a line, and the universal (every position) form of the open-marker comparison. Thin: 'exactly one node per line' and marker values are not decided.",
+        "Evaluates the extracted stop predicates of subtitle_start_fn (loop condition included) and hline_fn over all 27 node kinds x 6 levels against the nesting rule of the statement, plus same-line/same-kind matching of heading ends, marker provenance in list_fn, closing of all open lists by non-list content at the beginning of a line, the universal (every position) form of the open-marker comparison, and per-parse reset / balanced management of the beginning-of-line state. Thin: 'exactly one node per line' and marker values are not decided.",
         "The statement's nesting rule is the oracle; tables are recovered by constant folding, not by importing the package.",
         "DESIGN.md §3 C02",
     ),
     "C03": (
         "typestate on parser stack + table/registry agreement",
-        "Placement typestate shared with C01 (rows only under tables, cells only under rows), allowed-tag table consumable by the tokenizer, cookie-kind exhaustiveness across producers and consumers, full-match inclusion of the attribute grammar over the URL-safe alphabet, agreement of the sibling arms of magic_fn, attribute names/values stored as written, || continuing the kind of the row's last cell, derived tag tables computed after the last update of the allowed-tag table. Thin: r x c shape, cell content and valueless attributes are not decided.",
+        "Placement typestate shared with C01 (rows only under tables, cells only under rows), allowed-tag table consumable by the tokenizer, cookie-kind exhaustiveness across producers and consumers, full-match inclusion of the attribute grammar over the URL-safe alphabet, agreement of the sibling arms of magic_fn, attribute names/values stored as written, || continuing the kind of the row's last cell, derived tag tables computed after the last update of the allowed-tag table, beginning-of-line state counted and reset. Thin: r x c shape, cell content and valueless attributes are not decided.",
         "As C01.",
         "DESIGN.md §3 C03",
     ),
     "C04": (
         "must-pass-through and def-use on the template expansion path",
-        "Decides seven narrow clauses: automatic newline not bypassed, includable part computed at ingestion, positional values untrimmed / named trimmed / later duplicates win, body pipeline order stored body->preprocess->encode->substitute->expand with the new parent frame, conditional functions trim their results, missing template -> link and undefined parameter -> literal, #switch fall-through flags are latches. Thin: equality with MediaWiki output is not decidable statically.",
+        "Decides seven narrow clauses: automatic newline not bypassed, includable part computed at ingestion, positional values untrimmed / named trimmed / later duplicates win, body pipeline order stored body->preprocess->encode->substitute->expand with the new parent frame, conditional functions trim their results, missing template -> link and undefined parameter -> literal, #switch fall-through flags are latches and every keyed entry reaches the match test, shortcuts in front of the includable-part pipeline are implied by the step patterns (regex inclusion). Thin: equality with MediaWiki output is not decidable statically.",
         "Def-use is intra-procedural over the anchored closures.",
         "DESIGN.md §3 C04",
     ),
     "C05": (
         "may-raise analysis over the parser-function registry + recursion-guard dominance",
-        "For every registered parser function and the expansion closure: constant argument indexes are guarded, numeric conversions are soundly guarded, #expr arithmetic applications are under handlers covering the operator tables' exceptions, data-table subscripts are guarded or present in every shipped data file, tables read by SQL exist, recursion/loop guards dominate the recursive calls with a bounded depth constant, input-sized work is clamped. Does not decide termination in general.",
+        "For every registered parser function and the expansion closure: constant argument indexes are guarded, numeric conversions are soundly guarded, #expr arithmetic applications are under handlers covering the operator tables' exceptions, data-table subscripts are guarded or present in every shipped data file, tables read by SQL exist, recursion/loop guards dominate the recursive calls with a bounded depth constant, input-sized work is clamped, every call-graph cycle on the expansion path is depth-guarded or an enumerated structural recursion (frame-hungry ones under a RecursionError handler), constructor helpers assign the same context attributes on every path. Does not decide termination in general.",
         "Frozen exception table for math/builtin callables; network-backed functions excluded by name.",
         "DESIGN.md §3 C05",
     ),
     "C06": (
         "capability reachability on Lua AST + bridge-object kinds on Python AST",
-        "Static object-graph reachability from the module environment: origins of every env key, module cache contents reachable through require, sandbox-defined functions forwarding caller data to denied primitives, loader path confinement, kinds of Python objects handed across the bridge, LuaRuntime options. Replaces the live object graph by the static one the host hands in.",
+        "Static object-graph reachability from the module environment: origins of every env key, module cache contents reachable through require, sandbox-defined functions forwarding caller data to denied primitives, loader path confinement, kinds of Python objects handed across the bridge, LuaRuntime options, no missing context attribute (AttributeError.obj would expose the context). Replaces the live object graph by the static one the host hands in.",
         "Lua 5.1 preloaded library names and lupa attribute semantics are frozen knowledge; values created by Lua code at run time are outside the static graph.",
         "DESIGN.md §3 C06",
     ),
     "C07": (
         "capability reachability (hook control, error-catching primitives) + cross-language constants",
-        "Decides whether a module can defeat the time limit: hook-control functions not reachable from the environment, error-catching primitives re-raise the timeout marker, the limit is armed before both pcall sites, the Python side tests the same marker string and leaves the context usable, the limit is bounded and freshly armed, and the module cache receives only results of completed initialisation chunks (nothing a timeout could leave behind). Does not bound wall time.",
+        "Decides whether a module can defeat the time limit: hook-control functions not reachable from the environment, error-catching primitives re-raise the timeout marker, the limit is armed before both pcall sites, the Python side tests the same marker string and leaves the context usable, the limit is bounded and freshly armed, the module cache receives only results of completed initialisation chunks (nothing a timeout could leave behind), and the limit of an invocation is the parameter of the enclosing expand() call, never stored state. Does not bound wall time.",
         "Timeout is delivered by error() from a count hook as in the shipped sources.",
         "DESIGN.md §3 C07",
     ),
     "C08": (
         "cross-language layout agreement + def-use provenance",
-        "Tuple layout (value, is_named) built in make_frame agrees with the indexes read by frame_args_index; provenance of the four frames of reference in call_lua_sandbox, including that preprocess/expandTemplate only return constants, the heading strip-marker form or the result of expansion in the calling page context; named-argument detection and positional numbering agree with the expander; expandTemplate/callParserFunction pass arguments structurally. Thin: the metamorphic equivalences themselves are not decided.",
+        "Tuple layout (value, is_named) built in make_frame agrees with the indexes read by frame_args_index; provenance of the four frames of reference in call_lua_sandbox, including that preprocess/expandTemplate only return constants, the heading strip-marker form or the result of expansion in the calling page context; named-argument detection and positional numbering agree with the expander; expandTemplate/callParserFunction pass arguments structurally; absence of an argument is tested with `is None`; frame and environment stacks are popped after every invocation. Thin: the metamorphic equivalences themselves are not decided.",
         "Lua front end resolves locals/upvalues of the shipped sandbox files only.",
         "DESIGN.md §3 C08",
     ),
     "C09": (
         "effect/alias analysis over context attributes and module-level mutables; Lua cache reachability",
-        "Every context attribute mutated on the expand/parse path is re-initialised per page or per parse; no module-level or default-argument mutable object is mutated through an instance, including inner objects reached through one-level copies; attributes whose object the Lua runtime captured are never rebound; Lua reset and clone are on the invocation path; what survives the Lua reset and what shared tables are writable from a module. Decides which state can carry over, not equality of results.",
+        "Every context attribute mutated on the expand/parse path is re-initialised per page or per parse; no module-level or default-argument mutable object is mutated through an instance, including inner objects reached through one-level copies; class-body mutables are not mutated through instances; attributes whose object the Lua runtime captured are never rebound; Lua-side caches are emptied by a reset function; memoised functions have no per-page effects; Lua reset and clone are on the invocation path; what survives the Lua reset and what shared tables are writable from a module. Decides which state can carry over, not equality of results.",
         "Attribute effects are collected syntactically over the package with receivers named self/ctx/wtp.",
         "DESIGN.md §3 C09",
     ),
     "C10": (
         "SQL fact extraction + flow walk (memo invalidation after writers)",
-        "Memoised readers of table pages are invalidated after every writer on every normal path, the upsert updates every non-key column from excluded.* unconditionally, column lists align with bound tuples and with Page(...) construction, every lookup helper goes through get_page, commits precede close/backup, writer and reader agree on the stored key form, no case-altering call on titles beyond the first letter, and the namespace tables are indexed with keys of their own key space (canonical vs local names, checked against the shipped data). Does not decide the title-spelling matrix.",
+        "Memoised readers of table pages are invalidated after every writer on every normal path, the upsert updates every non-key column from excluded.* unconditionally, column lists align with bound tuples and with Page(...) construction, every lookup helper goes through get_page, commits precede close/backup, writer and reader agree on the stored key form, no case-altering call on titles beyond the first letter, the namespace tables are indexed with keys of their own key space (canonical vs local names, checked against the shipped data), objects handed out by the memoised lookup are never modified, writer and reader apply the same normalising operations, every writer of the table maintains the same in-memory mirrors, closing a context deletes no shared file. Does not decide the title-spelling matrix.",
         "SQL is recovered from string constants reaching execute/executescript.",
         "DESIGN.md §3 C10",
     ),
     "C11": (
         "file-protocol typestate on symbolic paths",
-        "Publication protocol of the database files: the backup becomes visible under its final name only by an atomic rename of a finished copy, restore removes the old -wal/-shm before the backup is renamed into place and before opening, the backup is never deleted before it is moved, backup precedes overwrite on both override arms, commit precedes copy. A kill at any point leaves exactly the files whose creating call started, so the protocol decides crash-safety up to SQLite's own atomic commit.",
+        "Publication protocol of the database files: the backup becomes visible under its final name only by an atomic rename of a finished copy, restore removes the old -wal/-shm before the backup is renamed into place and before opening, the backup is never deleted before it is moved, backup precedes overwrite on both override arms, commit precedes copy and the copy goes through SQLite (the database is in WAL mode). A kill at any point leaves exactly the files whose creating call started, so the protocol decides crash-safety up to SQLite's own atomic commit.",
         "SQLite's atomic commit and os.replace atomicity are trusted.",
         "DESIGN.md §3 C11",
     ),
     "C12": (
         "decision-skeleton of the ingestion filter + def-use + SQL alignment",
-        "The two skip conditions of parse_dump_xml evaluated over all valuations of their atoms against the statement, no transformation of title/text/model/redirect on the way to add_page, insert alignment, complete unconditional replacement of a re-added title, the four default templates added only when absent.",
+        "The two skip conditions of parse_dump_xml evaluated over all valuations of their atoms against the statement, no transformation of title/text/model/redirect on the way to add_page, insert alignment, complete unconditional replacement of a re-added title, the four default templates added only when absent (absence = no row), the includable-part pipeline of stored templates, no rollback scope between ingestion and the first commit, no state in objects shared between contexts.",
         "Redirects of other content models are reported but not judged (statement is silent).",
         "DESIGN.md §3 C12",
     ),
     "C13": (
         "truth-table evaluation of the selection function + writer/reader agreement",
-        "check_template_need_expand evaluated on all consistent valuations against the statement; every exit of the template branch is an expansion, an error element or a re-emission of the call with all its arguments in order, and the re-emitting exits are stack-balanced; hook call discipline; formatter delimiters agree with the encoder's bracket regexes.",
+        "check_template_need_expand evaluated on all consistent valuations against the statement; every exit of the template branch is an expansion, an error element or a re-emission of the call with all its arguments in order, and the re-emitting exits are stack-balanced; hook call discipline; formatter delimiters agree with the encoder's bracket regexes; flags written earlier are visible to the selection function (memo invalidation); re-emitted parser-function calls keep the name as written.",
         "Character-level identity of re-emitted text is not decided.",
         "DESIGN.md §3 C13",
     ),
@@ -97,31 +97,31 @@ CHECKS = {
     ),
     "C15": (
         "event order (protect before encode) + constant evaluation of the entity table",
-        "preprocess_text precedes _encode at every encode site, N cookies are inert in every consumer and quoted exactly once, the nowiki entity table round-trips through html.unescape, preprocess patterns and order, and the cookie table is append-only between start_page calls (so cookie characters in text produced earlier keep their meaning).",
+        "preprocess_text precedes _encode at every encode site, N cookies are inert in every consumer and quoted exactly once, the nowiki entity table round-trips through html.unescape, preprocess patterns and order, the cookie table is append-only between start_page calls, no memoised function allocates cookies, cookies are decoded only by the final consumers, and no cookie-bearing text is stored into objects owned by the page-lookup memo.",
         "Does not decide that no other consumer re-interprets protected text.",
         "DESIGN.md §3 C15",
     ),
     "C16": (
         "path-sensitive push/pop balance (structured flow walk)",
-        "For every function that pushes or pops the expansion path, on every path to every return and around every loop iteration the net change is zero (closures summarised, snapshot/restore idiom modelled, every except handler around a call that reaches a push treated as a catch boundary that must restore the path); only __init__/start_page assign the path; the five recorders build complete ErrorMessageData records from self and start_page resets the lists. Holds for all inputs and option combinations because it is a statement about all syntactic paths.",
+        "For every function that pushes or pops the expansion path, on every path to every return and around every loop iteration the net change is zero (closures summarised, snapshot/restore idiom modelled, every except handler around a call that reaches a push treated as a catch boundary that must restore the path); only __init__/start_page assign the path; the five recorders build complete ErrorMessageData records from self and start_page resets the lists; counters incremented and decremented in one function are balanced on every path (package-wide lint with a built-in positive example). Holds for all inputs and option combinations because it is a statement about all syntactic paths.",
         "User callbacks do not touch expand_stack; exceptions escaping expand()/parse() are outside the property.",
         "DESIGN.md §3 C16",
     ),
     "C17": (
         "dominance on the work-list loop + SQL facts",
-        "Every push onto the analysis work list is dominated by a fresh read, the need_pre_expand skip test and the marking write (termination on cycles); propagation direction of included_map; both redirect UPDATEs present and committed; memo invalidation of the writes.",
+        "Every push onto the analysis work list is dominated by a fresh read, the need_pre_expand skip test and the marking write (termination on cycles); propagation direction of included_map; both redirect UPDATEs present and committed; memo invalidation of the writes; the marking UPDATE selects by key columns only; in-memory mirrors of the marking are maintained by every writer; the lookup finds every stored title.",
         "Exactness of the marked closure is graph-shaped runtime data and is not decided.",
         "DESIGN.md §3 C17",
     ),
     "C18": (
         "table agreement with the documented precedence ladder + mypy comparison-overlap + data cross-check",
-        "The #expr ladder and the table used at each level agree with the documented precedence, left folding; no str/int comparison in registered functions (quick: annotation-driven AST rule; thorough: mypy strict equality); formatnum and formatnum|R are inverse by statement order for every shipped locale. Values of the string functions are not decided.",
+        "The #expr ladder and the table used at each level agree with the documented precedence, left folding; no str/int comparison in registered functions (quick: annotation-driven AST rule; thorough: mypy strict equality); formatnum and formatnum|R are inverse by statement order for every shipped locale, and the locale data is used as loaded. Values of the string functions are not decided.",
         "Documented precedence table frozen in the checker; values of string functions not decided.",
         "DESIGN.md §3 C18",
     ),
     "C19": (
         "exhaustiveness + writer/reader delimiter agreement + flow walk over emitter arms",
-        "to_wikitext handles every NodeKind; each opening literal it writes is a token that opens that kind in the parser; heading tables are inverse; [[ and ]] are both protected; attribute values are quoted; a parser function keeps its colon whenever it has an argument list; on every path through every emitter the node's content field (children / largs) is written out whenever it may be non-empty.",
+        "to_wikitext handles every NodeKind; each opening literal it writes is a token that opens that kind in the parser; heading tables are inverse; [[ and ]] are both protected; attribute values are quoted; a parser function keeps its colon whenever it has an argument list; on every path through every emitter the node's content field (children / largs) is written out whenever it may be non-empty; every attribute line the emitter can write is accepted by the table parser (regex inclusion); serialiser counters are balanced; `<tag />` closes the element in the parser.",
         "Tree equivalence after re-parse is not decided.",
         "DESIGN.md §3 C19",
     ),
